@@ -32,12 +32,16 @@ def floors(tier):
 
 def plan(seed, tier):
     n = 20 if tier == "quick" else 160
-    return [{"id": f"rest-{seed}-{i}", "seed": seed * 100003 + i, "numeric": i % 2 == 1} for i in range(n)]
+    cases = [{"id": f"rest-{seed}-{i}", "seed": seed * 100003 + i, "numeric": i % 2 == 1} for i in range(n)]
+    # the whole API moved into a proto sub-package (next to a sibling sub-package): nothing about the property changes
+    cases += [{"id": f"rest-sub-{seed}-{i}", "seed": seed * 100003 + 6000 + i, "numeric": i % 2 == 1, "subpkg": True} for i in range(2 if tier == "quick" else 10)]
+    return cases
 
 
 def build_api(case):
     rng = random.Random(case["seed"])
-    return apigen.rest_api(rng, "h%d" % (case["seed"] % 100000), numeric=case["numeric"])
+    api = apigen.rest_api(rng, "h%d" % (case["seed"] % 100000), numeric=case["numeric"])
+    return apigen.into_subpackage(api) if case.get("subpkg") else api
 
 
 def queryable_skip(fd):
@@ -164,7 +168,7 @@ def run_case(case):
                 call["reply_body"] = json.dumps(d)
                 call["reply_msgs"] = [rdm.b64(y.SerializeToString())]
             calls.append(call)
-    script = {"root_pkg": apigen.lib_root(api.info, api.options), "calls": calls}
+    script = {"root_pkg": apigen.runner_root(api), "calls": calls}
     ev, rc, err = pipeline.run_runner("checks.c04", script, lib, timeout=300)
     if ev is None or "runner_crash" in ev or "library_import_error" in ev:
         return pipeline.runner_failed_result(ev, rc, err, api)
